@@ -106,7 +106,7 @@ EXC_NAMES = {"ValueError", "RuntimeError", "TypeError", "IndexError", "KeyError"
 
 class NumEval:
     MAX_DEPTH = 12
-    MAX_ITER = 64
+    MAX_ITER = 8
 
     def __init__(self, index, natives=None, module_hooks=None):
         self.index = index
@@ -390,8 +390,8 @@ class Frame:
         while self.truth(self.expr(st.test), st.test):
             n += 1
             if n > self.ev.MAX_ITER:
-                raise AnalysisError("engine B: while loop not bounded by the abstract state at %s:%d"
-                                    % (self.mod.name, st.lineno))
+                raise B.Truncated("while loop at %s:%d not bounded by the abstract state after %d iterations"
+                                  % (self.mod.name, st.lineno, self.ev.MAX_ITER))
             try:
                 self.block(st.body)
             except _Break:
